@@ -11,6 +11,8 @@ only while every queue member in front of it belongs to a `FilterStore` and matc
 
 variable {σ : Type}
 
+namespace Conserve
+
 inductive AUnit : KState ℚ σ → KState ℚ σ → Prop
   | frame {s s'} : WF s → Frame s s' → AUnit s s'
   | alloc {s s'} (x : EvRec ℚ) : WF s → s'.events = s.events.push x → nonReqKind x.kind = true →
@@ -210,3 +212,5 @@ theorem UnitSeq.grant_get_moment {s s' : KState ℚ σ} (h : UnitSeq s s') {r : 
       refine ⟨t, v, pre, rest, ht, UnitSeq.snoc ht' hu, hq, hg, hp, hto, ?_⟩
       have hk1 : (s1.ev e).kind = .get r := by rw [h1.base.kind e (lt_size_of_get hk)]; exact hk
       rw [hu.base.outStable e (isReq_of_get hk1) hmid]; exact hout
+
+end Conserve
